@@ -5,6 +5,10 @@ import LeptosModel.Proofs.ViewRep
 namespace Leptos.View
 open Leptos.Dom
 
+-- `R`: how the attribute list of an element relates to the fresh render's (`Eq` for the static
+-- fragment, lookup-equality `AttrsEq` where removal and re-insertion change the order)
+variable {R : List (String × String) → List (String × String) → Prop}
+
 theorem build_text (s : String) (d : Dom) :
     build (.text s) d = ((d.create .text s).1, .text d.next s) := rfl
 theorem build_unit (d : Dom) :
@@ -59,9 +63,9 @@ theorem roots_nodup {st : State} (h : (owned st).Nodup) : st.roots.Nodup :=
 
 /-- what building these attribute values on a fresh element must achieve (a semantic condition on
 an attribute list; proved for each stage's attribute fragment) -/
-def AttrsFresh (as : List AttrVal) : Prop :=
+def AttrsFresh (R : List (String × String) → List (String × String) → Prop) (as : List AttrVal) : Prop :=
   ∀ (d : Dom) (el : Id) (r : NodeRec), d.get? el = some r → r.kind.isElem = true → r.attrs = [] →
-    (∃ r', (buildAttrs el as d).1.get? el = some r' ∧ r'.attrs = renderAttrs as ∧
+    (∃ r', (buildAttrs el as d).1.get? el = some r' ∧ R r'.attrs (renderAttrs as) ∧
       r'.kind = r.kind ∧ r'.parent = r.parent ∧ r'.kids = r.kids ∧ r'.data = r.data) ∧
     (∀ y, y ≠ el → (buildAttrs el as d).1.get? y = d.get? y) ∧
     (buildAttrs el as d).1.next = d.next ∧
@@ -83,8 +87,8 @@ def AllElList (P : List AttrVal → Prop) : List View → Prop
 end
 
 /-- result of `build`: an unmounted representation made of fresh nodes only -/
-structure Built (d d' : Dom) (v : View) (st : State) : Prop where
-  rep : Rep d' v st none
+structure Built (R : List (String × String) → List (String × String) → Prop) (d d' : Dom) (v : View) (st : State) : Prop where
+  rep : Rep R d' v st none
   next_le : d.next ≤ d'.next
   range : ∀ x ∈ owned st, d.next ≤ x ∧ x < d'.next
   nodup : (owned st).Nodup
@@ -99,8 +103,8 @@ theorem frame_create (d : Dom) (k : Kind) (s : String) (x : Id) (h : x < d.next)
   simp [Dom.get?_create, Nat.ne_of_lt h]
 
 mutual
-theorem build_spec : ∀ (v : View) (d : Dom), AllEl AttrsFresh v →
-    Built d (build v d).1 v (build v d).2
+theorem build_spec : ∀ (v : View) (d : Dom), AllEl (AttrsFresh R) v →
+    Built R d (build v d).1 v (build v d).2
   | .text s, d, _ => by
     rw [build_text]
     exact ⟨by simp [Rep, NodeIs_create], by simp, by simp [owned], by simp [owned],
@@ -200,7 +204,7 @@ theorem build_spec : ∀ (v : View) (d : Dom), AllEl AttrsFresh v →
       have hcn := hc.next_le
       refine ⟨?_, ?_, ?_, ?_, ?_⟩ <;> (try dsimp only)
       · simp only [Rep, hvf, Bool.false_eq_true, if_false]
-        refine ⟨rp', hp1, by rw [hp2.1, hk'], by rw [hp2.2.1, hp'], by rw [hp2.2.2.1, ha'], hst, ?_⟩
+        refine ⟨rp', hp1, by rw [hp2.1, hk'], by rw [hp2.2.1, hp'], by rw [hp2.2.2.1]; exact ha', hst, ?_⟩
         refine ⟨cs, rfl, by simpa using hp3, ?_⟩
         apply Rep.reparent c cs none (some d.next) hc.nodup ?_ hkids hc.rep
         intro x hx hxr
@@ -219,8 +223,8 @@ theorem build_spec : ∀ (v : View) (d : Dom), AllEl AttrsFresh v →
         rw [hothers x (by omega_nat) ?_, hc.frame x (by omega_nat), hoth x (by omega_nat)]
         · exact hfr x hx
         · intro hm; have := hc.range _ (roots_sub_owned cs _ hm); omega_nat
-theorem buildList_spec : ∀ (vs : List View) (d : Dom), AllElList AttrsFresh vs →
-    Built d (buildList vs d).1 (.tuple vs) (.tuple (buildList vs d).2)
+theorem buildList_spec : ∀ (vs : List View) (d : Dom), AllElList (AttrsFresh R) vs →
+    Built R d (buildList vs d).1 (.tuple vs) (.tuple (buildList vs d).2)
   | [], d, _ => by
     rw [buildList_nil]
     exact ⟨by simp [Rep, RepList], by simp, by simp [owned, ownedList], by simp [owned, ownedList],
